@@ -7,9 +7,6 @@ isolated with sympy's exact real-root isolation.  This bounds the *approximation
 polynomial, not the rounding error of its double-double evaluation."""
 import math
 from fractions import Fraction
-import sympy
-
-_x = sympy.Symbol("x")
 
 def peval(c, u):
     r = Fraction(0)
@@ -17,30 +14,149 @@ def peval(c, u):
         r = r * u + k
     return r
 
-def sup_abs(c, a, b):
-    """upper bound of sup_{[a,b]} |sum c_k u^k| (c ascending, Fractions)"""
+def _ieval(c, lo, hi):
+    """interval Horner: enclosure of sum c_k u^k over [lo, hi] (exact rationals)"""
+    rl = rh = Fraction(0)
+    for k in reversed(c):
+        # [rl, rh] * [lo, hi]
+        p = (rl * lo, rl * hi, rh * lo, rh * hi)
+        rl, rh = min(p) + k, max(p) + k
+    return rl, rh
+
+def sup_abs_bb(c, a, b, max_boxes=6000):
+    """rigorous upper bound of sup_{[a,b]} |sum c_k u^k| (c ascending, Fractions) by adaptive
+    subdivision with the mean-value form  Q(I) <= Q(m) + Q'(I) (I - m); bounded work, no root
+    finding (the bound only gets looser, never wrong, when the budget runs out)."""
+    import heapq
     c = list(c)
     while c and c[-1] == 0:
         c.pop()
     if not c:
         return Fraction(0)
-    pts = [a, b]
-    slack = Fraction(0)
-    if len(c) > 1:
-        dc = [k * c[k] for k in range(1, len(c))]
-        Q1 = sympy.Poly([sympy.Rational(k.numerator, k.denominator) for k in reversed(dc)], _x)
-        if Q1.degree() > 0:
-            eps = sympy.Rational(1, 10 ** 40)
-            M = max(abs(a), abs(b))
-            lip = sum(abs(k) * (M ** i) for i, k in enumerate(dc))
-            for (l, r), m in Q1.intervals(eps=eps):
-                l = Fraction(int(l.p), int(l.q)); r = Fraction(int(r.p), int(r.q))
-                if r < a or l > b:
-                    continue
-                l = max(l, a); r = min(r, b)
-                pts += [l, r]
-                slack = max(slack, (r - l) * lip)
-    return max(abs(peval(c, u)) for u in pts) + slack
+    dc = [k * c[k] for k in range(1, len(c))]
+    def enclose(lo, hi):
+        m = (lo + hi) / 2
+        qm = peval(c, m)
+        if not dc:
+            return abs(qm)
+        dl, dh = _ieval(dc, lo, hi)
+        r = (hi - lo) / 2
+        return abs(qm) + max(abs(dl), abs(dh)) * r
+    best_lower = max(abs(peval(c, a)), abs(peval(c, b)))
+    heap = []
+    n0 = 16
+    for i in range(n0):
+        lo = a + (b - a) * i / n0; hi = a + (b - a) * (i + 1) / n0
+        heapq.heappush(heap, (-enclose(lo, hi), i, lo, hi))
+    cnt = n0
+    while heap and cnt < max_boxes:
+        ub, _, lo, hi = heap[0]
+        ub = -ub
+        m = (lo + hi) / 2
+        best_lower = max(best_lower, abs(peval(c, m)))
+        # stop when the enclosure is within 1% of a value actually attained
+        if ub <= best_lower * Fraction(101, 100) or ub == 0:
+            break
+        heapq.heappop(heap)
+        for l2, h2 in ((lo, m), (m, hi)):
+            cnt += 1
+            heapq.heappush(heap, (-enclose(l2, h2), cnt, l2, h2))
+    return -heap[0][0] if heap else best_lower
+
+class _Timeout(Exception):
+    pass
+
+def _critical_intervals(g, a, b, seconds=20):
+    """isolating intervals (Fractions) of the real roots of sum g_k u^k inside [a, b], refined by
+    exact bisection; raises _Timeout / ValueError when sympy's isolation does not finish in time"""
+    import signal, sympy
+    g = list(g)
+    while g and g[-1] == 0:
+        g.pop()
+    if len(g) <= 1:
+        return []
+    x = sympy.Symbol("x")
+    pl = sympy.Poly([sympy.Rational(k.numerator, k.denominator) for k in reversed(g)], x)
+    def handler(sig, frm):
+        raise _Timeout()
+    use_alarm = True
+    try:
+        old = signal.signal(signal.SIGALRM, handler)
+        signal.alarm(seconds)
+    except ValueError:
+        use_alarm = False      # not in the main thread
+    try:
+        ivs = pl.intervals()
+    finally:
+        if use_alarm:
+            signal.alarm(0)
+            signal.signal(signal.SIGALRM, old)
+    out = []
+    for (l, r), m in ivs:
+        l = Fraction(int(l.p), int(l.q)); r = Fraction(int(r.p), int(r.q))
+        if r < a or l > b:
+            continue
+        if l < r:
+            sl = peval(g, l)
+            for _ in range(70):
+                m2 = (l + r) / 2
+                sm = peval(g, m2)
+                if sm == 0:
+                    l = r = m2; break
+                if (sm > 0) == (sl > 0):
+                    l, sl = m2, sm
+                else:
+                    r = m2
+        out.append((max(l, a), min(r, b)))
+    return out
+
+def _sqrt_upper(q):
+    """a rational s with s*s >= q"""
+    import math
+    if q <= 0:
+        return Fraction(0)
+    s = Fraction(math.sqrt(float(q))) * Fraction(1000001, 1000000)
+    while s * s < q:
+        s *= Fraction(1000001, 1000000)
+    return s
+
+def sup_abs(c, a, b):
+    """upper bound of sup_{[a,b]} |Q(u)|: exact critical points (fallback: branch and bound)"""
+    c = list(c)
+    while c and c[-1] == 0:
+        c.pop()
+    if not c:
+        return Fraction(0)
+    dc = [k * c[k] for k in range(1, len(c))]
+    try:
+        ivs = _critical_intervals(dc, a, b)
+    except Exception:
+        return sup_abs_bb(c, a, b)
+    M = max(abs(a), abs(b))
+    lip = sum(abs(k) * (M ** i) for i, k in enumerate(dc))
+    best = max(abs(peval(c, a)), abs(peval(c, b)))
+    for l, r in ivs:
+        best = max(best, max(abs(peval(c, l)), abs(peval(c, r))) + (r - l) * lip)
+    return best
+
+def sup_abs_xq(c, U):
+    """upper bound of sup_{0 <= x <= sqrt(U)} |x * Q(x^2)|; critical points satisfy Q(u) + 2 u Q'(u) = 0"""
+    c = list(c)
+    while c and c[-1] == 0:
+        c.pop()
+    if not c:
+        return Fraction(0)
+    dc = [k * c[k] for k in range(1, len(c))]
+    g = [(c[i] if i < len(c) else 0) + 2 * (dc[i - 1] if 1 <= i <= len(dc) else 0) for i in range(len(c))]
+    try:
+        ivs = _critical_intervals(g, Fraction(0), U)
+    except Exception:
+        return _sqrt_upper(U) * sup_abs_bb(c, Fraction(0), U)
+    lip = sum(abs(k) * (U ** i) for i, k in enumerate(dc))
+    best = _sqrt_upper(U) * abs(peval(c, U))
+    for l, r in ivs:
+        best = max(best, _sqrt_upper(r) * (max(abs(peval(c, l)), abs(peval(c, r))) + (r - l) * lip))
+    return best
 
 def taylor_u(kind, n):
     """coefficients (ascending in u = x^2) of f(x)/x (odd f) or f(x) (cos), n+1 terms, and a
@@ -89,10 +205,7 @@ def kernel_error(kind, coeffs, X, nterms=40):
     if kind == "cos":
         return s, None
     # absolute error of an odd kernel: sup over x of |x * Q(x^2)| (tighter than X * sup|Q|)
-    Qx = []
-    for c in Q:
-        Qx += [Fraction(0), c]
-    s_abs = sup_abs(Qx, Fraction(0), X) + X * tail(U)
+    s_abs = sup_abs_xq(Q, U) + X * tail(U)
     # odd kernels: |P - f| <= X * s ;  |P/f - 1| <= s / inf(f(x)/x)
     if kind == "sin":
         inf_ratio = 1 - U / 6
